@@ -1096,7 +1096,7 @@ func main() {
 	nwracekeep := flag.Int("nwracekeep", -1, "wide race rounds to keep (-1: nracekeep/3)")
 	long := flag.String("long", "", "long-run traces (run-length encoded; empty: none)")
 	longchurn := flag.Int("longchurn", 65540, "calls of the long eviction run (0: none)")
-	longfill := flag.Int("longfill", 65538, "entries of the large never-evicting cache (0: none)")
+	longfill := flag.Int("longfill", 0, "entries of a large never-evicting cache (0: none; TLC needs minutes for a state of 2^16 entries, so no tier asks for it)")
 	longtouch := flag.Int("longtouch", 65540, "calls of the long recency run (0: none)")
 	nreconf := flag.Int("nreconf", -1, "reconfiguration histories (-1: hist/5)")
 	nshape := flag.Int("nshape", -1, "shape-class histories (-1: all of them if hist > 0)")
